@@ -18,6 +18,7 @@ Definition report : list (string * bool) :=
     ("no_peer_close_in_shared_server", no_peer_close_in_shared_server gen_funcs);
     ("skeleton_conforms", skeleton_conforms gen_funcs gen_submitters);
     ("closable_senders_covered", closable_senders_covered gen_funcs);
+    ("peer_close_bounds_pending_write", peer_close_bounds_pending_write gen_peer_close_bounds_write);
     ("invocation_drops_cancel_timer", invocation_drops_cancel_timer gen_invocation_drops);
     ("yield_stops_timer_before_retry", yield_stops_timer_before_retry gen_yield_stops_timer_before_retry);
     ("cancel_waits_only_if_interrupt_sent", cancel_waits_only_if_interrupt_sent gen_cancel_waits_only_if_interrupt_sent);
@@ -57,6 +58,9 @@ Eval vm_compute in YIELD_RESUME_TABLE.
 
 Definition CANCEL_TABLE := cancel_table.
 Eval vm_compute in CANCEL_TABLE.
+
+Definition UNBOUNDED_PEER_CLOSES := unbounded_peer_closes gen_peer_close_bounds_write.
+Eval vm_compute in UNBOUNDED_PEER_CLOSES.
 
 Definition BAD_INVOCATION_DROPS := bad_invocation_drops gen_invocation_drops.
 Eval vm_compute in BAD_INVOCATION_DROPS.
